@@ -107,11 +107,13 @@ def judge(run, cases, res):
             run.failing({"kind": "panic", "class": c["class"]}, [c], "the implementation panicked on case %d: %s" % (c["id"], str(o["panic"])[:300]),
                         theorem="AppProtect.Model.step is total")
     cov = run.cov.setdefault("by_class", {})
-    st = run.cov.setdefault("stats", {"operations_compared": 0, "runs": 0, "final_dup_answers": 0, "final_missing_answers": 0,
-                                      "final_dos_reference_failures": 0, "cases_in_known_class_revtime": 0,
+    st = run.cov.setdefault("stats", {"operations_compared": 0, "runs": 0, "cases_in_known_class_revtime": 0,
                                       "cases_in_known_class_delete_absent": 0})
+    ans = run.cov.setdefault("answers_observed_first_run_all_steps", {})
+    names = ["waf_duplicate_tag", "waf_missing_signature", "waf_invalid_timestamp", "waf_failed_validation", "dos_invalid",
+             "dos_policy_missing", "dos_policy_invalid", "dos_logconf_missing", "dos_logconf_invalid", "usable"]
     for row in res:
-        cid, agree, spec, nontrivial, bits, ndup, nmiss, ndos, nruns = row
+        cid, agree, spec, nontrivial, bits, nruns = row[:6]
         c = byid[cid]
         canon = {"enabled": c["enabled"], "hist": c["hist"], "perms": c["perms"]}
         run.count_case(canon, bool(nontrivial))
@@ -119,9 +121,8 @@ def judge(run, cases, res):
         cov[c["class"]] = cov.get(c["class"], 0) + 1
         st["operations_compared"] += nruns * len(c["hist"])
         st["runs"] += nruns
-        st["final_dup_answers"] += ndup
-        st["final_missing_answers"] += nmiss
-        st["final_dos_reference_failures"] += ndos
+        for nme, v in zip(names, row[6:]):
+            ans[nme] = ans.get(nme, 0) + v
         st["cases_in_known_class_revtime"] += 1 if bits & 1 else 0
         st["cases_in_known_class_delete_absent"] += 1 if bits & 2 else 0
         small = dict(c)
@@ -154,7 +155,7 @@ TRUSTED = [
 
 
 def check(run):
-    n = 260 if run.tier == "quick" else 5000
+    n = 260 if run.tier == "quick" else 4000
     run.proof_obligations()
     binary = C.go_build("c19")
     out = os.path.join(C.WORK, "cases", "c19_%s.jsonl" % run.tier)
@@ -172,7 +173,9 @@ def check(run):
         if usable(c):
             s["obs_first_run"] = c["obs"]["runs"][0]["steps"][:6]
         run.sample(s)
-    run.cov["rule"] = ("histories of 4-25 add/update/delete operations over APPolicy, APLogConf, APUserSig, APDosPolicy, APDosLogConf, "
+    run.cov["rule"] = ("2 fixed corpus cases (the witnesses of C19_revtime_refuted and C19_usersig_report_refuted) + generated histories in "
+                       "three families (all six kinds / WAF kinds only / DoS kinds only, 2:1:1): "
+                       "4-25 add/update/delete operations over APPolicy, APLogConf, APUserSig, APDosPolicy, APDosLogConf, "
                        "DosProtectedResource on 2 namespaces x 3 names, 3 tags + no tag, 3 creation timestamps (ties), 5 revision times "
                        "(boundary equalities), uid letters from a 3x3 pool; tag changes by update; malformed specs (missing required fields, "
                        "signature-requirements not a slice, unparsable min/max/revision times, bad DoS references / log destinations; every "
